@@ -390,7 +390,17 @@ func compressFlagWiring(c *core.Ctx) {
 	}
 	c.Floor("sites that set the compressed flag", sets, 1)
 
-	// unary Connect: Content-Encoding named only on the compressing path
+	// unary Connect: whoever names the body's encoding must have compressed that body on the same path
+	if enc, _ := p.Connect.Types.Scope().Lookup("connectUnaryHeaderCompression").(*types.Const); enc != nil {
+		for _, ofd := range p.AllFuncDecls(p.Connect) {
+			for i, u := range headerWritesWhere(p, info, ofd, func(ast.Expr) bool { return true }) {
+				if u.cst != enc || core.FuncName(ofd) == "connectUnaryMarshaler.Marshal" {
+					continue
+				}
+				c.Violation(fmt.Sprintf("unary-encoding-header/%s#%d", core.FuncName(ofd), i), u.pos, "%s writes %s without having compressed the body: a body below the compression threshold would be labelled compressed", core.FuncName(ofd), enc.Name())
+			}
+		}
+	}
 	if fd := fn(p, "connectUnaryMarshaler.Marshal"); fd != nil {
 		enc, _ := p.Connect.Types.Scope().Lookup("connectUnaryHeaderCompression").(*types.Const)
 		for _, call := range astx.Calls(fd.Body) {
